@@ -109,6 +109,25 @@ def gen_mmt(rng: random.Random, nested: str = "none"):
     return "\n".join(lines) + "\n"
 
 
+# names with a meaning of their own in the `.ode` language or in sympy: a Myokit variable of that name must
+# keep its own value through import + save + reload
+SPECIAL_NAMES = ["pi", "E", "I", "oo", "nan", "zoo", "S", "N", "Q", "O", "exp", "log", "sqrt", "floor", "abs", "Abs", "cos", "sin", "ln",
+                 "t", "time", "dt", "Conditional", "Lt", "And", "Mod", "beta", "gamma", "lambda_", "states", "parameters", "values"]
+
+
+def crafted_mmt(name: str, role: str) -> str:
+    """a flat model in which `name` is a constant / a state / an intermediate that feeds a derivative,
+    with a value that is not the value the name has as a constant or function"""
+    if role == "constant":
+        return ("[[model]]\nname: crafted\nc.V = -0.8\nc.w = 0.3\n\n[engine]\ntime = 0 bind time\n\n[c]\n"
+                f"{name} = 3.14\ng = 0.7\ndot(V) = -g * (V - {name}) + w\ndot(w) = (V * {name} - w) / 2.5\n")
+    if role == "state":
+        return (f"[[model]]\nname: crafted\nc.{name} = 0.45\nc.w = 0.3\n\n[engine]\ntime = 0 bind time\n\n[c]\n"
+                f"g = 0.7\ndot({name}) = -g * ({name} - 1.5) + w\ndot(w) = ({name} * 2 - w) / 2.5\n")
+    return ("[[model]]\nname: crafted\nc.V = -0.8\nc.w = 0.3\n\n[engine]\ntime = 0 bind time\n\n[c]\n"
+            f"g = 0.7\n{name} = g * V + 1.25\ndot(V) = -g * (V - {name}) + w\ndot(w) = (V * {name} - w) / 2.5\n")
+
+
 def myokit_derivs(model, state=None, t=0.0):
     return model.evaluate_derivatives(state=state, inputs={"time": t}, ignore_errors=True)
 
@@ -276,6 +295,19 @@ def c15_run(ctx: Ctx):
         if f.exists():
             with common.time_limit(ctx, 240):
                 c15_case(ctx, {"kind": kind, "path": str(f)})
+    # crafted: names that mean something else in the .ode language / in sympy, in each role
+    special = [(n, r) for n in SPECIAL_NAMES for r in ("constant", "state", "intermediate")]
+    ctx.rng.shuffle(special)
+    first = [(n, "constant") for n in ("pi", "E", "exp", "time", "beta")]
+    for n, r in first + special[:ctx.n(10, len(special))]:
+        with common.time_limit(ctx, 60):
+            c15_case(ctx, {"kind": "mmt-text", "text": crafted_mmt(n, r), "nested": "none", "special": f"{n}/{r}"})
+    # the variable bound to time under other names, used explicitly by a derivative
+    for tn in ["time", "t", "clock", "T"][:ctx.n(3, 4)]:
+        text = ("[[model]]\nname: crafted\nc.V = -0.8\nc.w = 0.3\n\n[engine]\n%s = 0 bind time\n\n[c]\ng = 0.7\n"
+                "dot(V) = -g * (V - 1.5) + w + engine.%s * 0.25\ndot(w) = (V * 2 - w) / 2.5\n") % (tn, tn)
+        with common.time_limit(ctx, 60):
+            c15_case(ctx, {"kind": "mmt-text", "text": text, "nested": "none", "special": f"timevar/{tn}"})
     for k in range(ctx.n(14, 200)):
         nested = ["none", "none", "unique", "repeated"][k % 4]
         text = gen_mmt(ctx.rng, nested)
